@@ -253,6 +253,33 @@ pub fn run(ctx: &mut Ctx) {
             }
         }
     }
+    // G-big: hundreds of records, names first occurring beyond offset 16383 (not addressable by a pointer),
+    // pointers from far records back into the first 16 KiB
+    let nb = ctx.scaled(if ctx.tier == "thorough" { 40_000 } else { 1_600 });
+    for case in ctx.phase("big", nb) {
+        if case % 64 == 0 && ctx.out_of_time() {
+            break;
+        }
+        ctx.begin_case(case);
+        let mut rng = Rng::for_case(ctx.seed, "c03-big", 0, case);
+        let cfg = Cfg { max_records: 400, compress_eighths: 6, ..Default::default() };
+        let mut v = gen_valid(&mut rng, &cfg);
+        for _ in 0..6 {
+            if v.bytes.len() > 20_000 {
+                break;
+            }
+            v = gen_valid(&mut rng, &cfg);
+        }
+        if let Ok(d) = refparse(&v.bytes, STRICT) {
+            if d.msg == v.msg {
+                if v.bytes.len() > 16_383 {
+                    ctx.count("packets_beyond_16383");
+                }
+                ctx.cover(&format!("big|{}|{}", v.bytes.len() / 8192, v.msg.n_records() / 50));
+                one(ctx, &v.bytes, "big");
+            }
+        }
+    }
     // accepted mutants of valid packets (accepted by both): layouts the generator would not draw
     let m = ctx.scaled(if ctx.tier == "thorough" { 6_000_000 } else { 300_000 });
     for case in ctx.phase("accepted-mutants", m) {
